@@ -79,6 +79,8 @@ def run(chk):
     r2(chk)
     r3(chk)
     r3_estimates(chk)
+    aud.ctor_fields(chk, "C04.R2", RU, "Contest", ["name", "candidates", "winner", ("tot_ballots", "total_auditable_ballots"), ("outcome", "order")],
+                    "the contest name is the key the ballots are filed under: a converted copy finds no ballot")
     r4(chk)
     r5(chk)
     r6(chk)
